@@ -254,13 +254,16 @@ pub(crate) fn format(input: &str) -> Option<(LeftToParse<'_>, Format<'_>)> {
 
     let (input, arg) = optional_result(argument)(input);
 
+    // `format_args!` allows whitespaces after the argument and before the closing brace.
+    let input = input.trim_start();
+
     let (input, spec) = map_or_else(
         char(':'),
         |i| Some((i, None)),
         map(format_spec, |(i, s)| (i, Some(s))),
     )(input)?;
 
-    let input = char('}')(input)?;
+    let input = char('}')(input.trim_start())?;
 
     Some((input, Format { arg, spec }))
 }
@@ -452,7 +455,9 @@ fn type_(input: &str) -> Option<(&str, Type)> {
         &mut map(char('b'), |i| (i, Type::Binary)),
         &mut map(char('e'), |i| (i, Type::LowerExp)),
         &mut map(char('E'), |i| (i, Type::UpperExp)),
-        &mut map(lookahead(char('}')), |i| (i, Type::Display)),
+        &mut map(lookahead(|i: &str| char('}')(i.trim_start())), |i| {
+            (i, Type::Display)
+        }),
     ])(input)
 }
 
